@@ -66,6 +66,7 @@ ARR = {'proj_lower_quotas': ('lq', 'P'), 'proj_upper_quotas': ('uq', 'P'), 'lec_
 ROWS = {'pairs': 'S', 'project_lists': 'P', 'lecturer_lists': 'L', 'rank_lists': 'R'}
 COUNT = {'num_students': 'S', 'num_projects': 'P', 'num_lecturers': 'L'}
 SORTSIZE = {'S': 'n', 'P': 'P', 'L': 'L', 'R': 'R'}
+COUNT_OF_SORT = {'S': 'num_students', 'P': 'num_projects', 'L': 'num_lecturers'}
 SORTVAR = {'S': 'i', 'P': 'j', 'L': 'k', 'R': 'r'}
 PAIRATTR = {'student_index': ('s', 0), 'studentID': ('s', 1), 'project_index': ('pr', 0), 'projectID': ('pr', 1),
             'lecturer_index': ('l', 0), 'lecturerID': ('l', 1), 'rank_student': ('rs', 0), 'rank_lecturer': ('rl', 0)}
@@ -244,6 +245,12 @@ class Canon:
             return ('while', dom[1])
         if model_attr(dom) in self.var_arrays:
             return ('varelems', model_attr(dom))
+        if dom[0] == 'slice' and model_attr(dom[1]) in self.var_arrays and dom[2] in (NONE, C(0)):
+            # arr[:N] with N the size the array was declared with, or arr[:]
+            arr = model_attr(dom[1])
+            size = COUNT_OF_SORT.get(self.arr_letter.get(arr, (None, None))[1])
+            if dom[3] == NONE or (size is not None and model_attr(dom[3]) == size):
+                return ('varelems', arr)
         if dom[0] == 'call' and dom[1] == S('range'):
             return ('range', dom[2])
         if dom[0] == 'call' and dom[1] == S('reversed') and len(dom[2]) == 1 and dom[2][0][0] == 'call' and dom[2][0][1] == S('range'):
@@ -392,6 +399,31 @@ class Canon:
             return 'has_%s(%s)' % (g[2][1][1], self.pairname(g[2][0]))
         if g[0] == 'const':
             return 'true' if g[1] else 'false'
+        if g[0] == 'call' and g[1] == S('__until_break__') and len(g[2]) == 1:
+            # `if key(q) > bound: break` in a loop over a student's row: the row is sorted by rank_student (dense ranks from 1,
+            # C10/C13), so the prefix before the first q with key(q) > bound is exactly {q : key(q) <= bound}
+            c = g[2][0]
+            inner = c
+            # first element of a row has rank 1:  (1 if index == 0 else q.rank_student)  ==  q.rank_student
+            def first_is_one(x):
+                if x[0] == 'ite' and x[1][0] == 'cmp' and x[1][1] == 'Eq' and x[1][2][0] == 'indexof' and x[1][3] == C(0) and x[2] == C(1) \
+                        and x[3][0] == 'attr' and x[3][1] == x[1][2][1] and x[3][2] == 'rank_student':
+                    return x[3]
+                return None
+            inner = subst(inner, first_is_one)
+            while inner[0] == 'not' and inner[1][0] == 'not':
+                inner = inner[1][1]
+            cm = inner[1] if inner[0] == 'not' else inner
+            neg = inner[0] == 'not'
+            if cm[0] == 'cmp' and cm[1] in ('Lt', 'LtE', 'Gt', 'GtE'):
+                keyside = [x for x in (cm[2], cm[3]) if x[0] == 'attr' and x[2] == 'rank_student' and x[1][0] == 'bvar' and self.names.get(x[1][1]) in ('q',)]
+                if len(keyside) == 1:
+                    op = cm[1] if keyside[0] == cm[2] else {'Lt': 'Gt', 'Gt': 'Lt', 'LtE': 'GtE', 'GtE': 'LtE'}[cm[1]]
+                    if neg:
+                        op = {'Lt': 'GtE', 'GtE': 'Lt', 'Gt': 'LtE', 'LtE': 'Gt'}[op]
+                    if op in ('Lt', 'LtE'):          # stays true on a prefix of an ascending row
+                        return self.pred(inner)
+            raise Unknown('loop left by break: the remaining iterations are a prefix, not recognised as a sorted-key prefix: ' + show(c)[:60])
         raise Unknown('predicate ' + show(g)[:80])
 
     def is_pair(self, t):
